@@ -340,7 +340,7 @@ namespace awkward {
         std::string("called 'index' without 'begin_tuple' at the same level before it")
         + FILENAME(__LINE__));
     }
-    else if (index >= (int64_t)contents_.size()) {
+    else if (index < 0  ||  index >= (int64_t)contents_.size()) {
       throw std::invalid_argument(
         std::string("'index' ")
         + std::to_string(index)
